@@ -31,7 +31,7 @@ ALGS = {"md5": 16, "sha1": 20, "sha224": 28, "sha256": 32, "sha384": 48, "sha512
 def generate(rng, ctx):
     alg = rng.choice(list(ALGS))
     tok = token(rng)
-    kind = weighted(rng, [(5, "token"), (1, "empty"), (2, "unicode"), (1, "long"), (1, "short")])
+    kind = weighted(rng, [(5, "token"), (1, "empty"), (2, "unicode"), (1, "long"), (1, "short"), (2, "shaped"), (2, "compat")])
     if kind == "empty":
         p = ""
     elif kind == "unicode":
@@ -40,6 +40,13 @@ def generate(rng, ctx):
         p = (tok + "x" * 50) * 100
     elif kind == "short":
         p = rng.choice(["a", "0", " ", "pw"])
+    elif kind == "shaped":
+        # secrets that look like other on-disk shapes: 'salt:digest' text, base64, JSON, key=value
+        p = rng.choice(["pass:word", "abcd:efgh", ":", "QUJD:REVG", "a:b", "YWJj", "{\"salt\": \"x\"}", "salt=1;digest=2",
+                        "c2FsdA==:ZGlnZXN0", tok[:8] + ":" + tok[8:], "::", "=" * 4])
+    elif kind == "compat":
+        # not in NFC/NFKC form: full-width letters, ligature, superscript, combining accent
+        p = rng.choice(["\uff50\uff41\uff53\uff53", "\ufb01le", "x\u00b2", "e\u0301", "\u212b", "\u00e9"]) + rng.choice(["", tok])
     else:
         p = tok
     as_bytes = rng.random() < 0.3
@@ -57,11 +64,21 @@ def abbreviate(case):
 
 
 def near_misses(p, digest):
+    import unicodedata
+
     pb = p.encode() if isinstance(p, str) else p
+    extra = []
+    if isinstance(p, str):
+        for form in ("NFC", "NFD", "NFKC", "NFKD"):
+            q = unicodedata.normalize(form, p)
+            if q != p:
+                extra.append(q.encode())
+        if p.lower() != p or p.upper() != p:
+            extra.append(p.swapcase().encode())
     qs = [pb + b"\x00", pb + b" ", pb[:-1] if pb else b"x", b"x" + pb, pb.swapcase() if pb.swapcase() != pb else pb + b"!",
           base64.b64encode(digest), pb * 2 if pb else b"\x00", pb.strip() if pb.strip() != pb else pb + b"\n"]
     out = []
-    for q in qs:
+    for q in qs + extra:
         if q != pb:
             out.append(q)
             try:
@@ -209,7 +226,7 @@ def run(case, ctx, res):
             res.viol("M-roundtrip", "challenge-after-reload-accepts-q:%s" % place, "%s: challenge(%r) succeeds after reload" % (fmt, _short(q)))
             return
     # a plaintext written by hand into a document is hashed on load
-    if isinstance(p, str) and p and trees.in_domain("xml", p):
+    if isinstance(p, str) and p:
         fmt = case["fmts"][0]
         doc = {"pw": p, "sub": {"deep": {"pw": p}}, "items": [{"pw": p, "n": 3}], "pws": [p]}
         if trees.in_domain(fmt, doc):
